@@ -492,9 +492,27 @@ func randWindow(r *RNG, L int) (int, int) {
 	}
 }
 
+// manySam: m short single-record queries on a short reference (for the many-records-jitter cases: far more records
+// in flight than any fixed-size reorder window)
+func manySam(r *RNG, m int) samCase {
+	L := r.Range(10, 30)
+	ref := randSeq(r, L, symACGT, false)
+	sc := samCase{ref: ref, rname: "ref" + fmt.Sprint(r.Intn(9)), tags: map[string]bool{}}
+	for i := 0; i < m; i++ {
+		st := r.Range(0, L-2)
+		n := r.Range(1, L-st)
+		tmpl := mutateSeq(r, ref, symACGT, 1, 6, false)
+		sc.recs = append(sc.recs, samRec{name: fmt.Sprintf("q%03d", i), flag: 0, pos: st + 1, cigar: fmt.Sprintf("%dM", n), seq: tmpl[st : st+n]})
+	}
+	return sc
+}
+
 func tomaGen(r *RNG, id string, windows bool) *Case {
 	c := NewCase("TOMA", id)
 	sc := genSam(r, false, 3)
+	if m := manyRecords(r, c, 25); m > 0 {
+		sc = manySam(r, m)
+	}
 	sc.fill(c)
 	start, end := -1, -1
 	if windows || r.Chance(1, 4) {
@@ -504,6 +522,9 @@ func tomaGen(r *RNG, id string, windows bool) *Case {
 	c.SetInt("start", start).SetInt("end", end).SetBool("pad", r.Bool())
 	c.SetInt("wrap", r.PickInt([]int{-1, -1, 1, 7, 60, len(sc.ref), len(sc.ref) + 2}))
 	c.SetInt("threads", r.PickInt([]int{1, 2, 4, 16}))
+	if c.Get("jit") != "" {
+		c.SetInt("threads", r.PickInt([]int{4, 8, 16}))
+	}
 	maybeCLI(r, c, 6)
 	return c
 }
@@ -534,6 +555,9 @@ func execToma(r *RNG, c *Case) {
 func topaGen(r *RNG, id string, windows bool) *Case {
 	c := NewCase("TOPA", id)
 	sc := genSam(r, true, r.PickInt([]int{0, 2, 5}))
+	if m := manyRecords(r, c, 25); m > 0 {
+		sc = manySam(r, m)
+	}
 	// two reads in a row whose reference rows are equally wide but gapped at different places (one insertion of the
 	// same length each): anything a worker keeps from the first pair and keys by width is wrong for the second
 	L := len(sc.ref)
@@ -577,6 +601,9 @@ func topaGen(r *RNG, id string, windows bool) *Case {
 	c.SetBool("omitref", r.Chance(1, 3)).SetBool("omitins", r.Chance(1, 3))
 	c.SetInt("wrap", r.PickInt([]int{-1, -1, 1, 7, 60}))
 	c.SetInt("threads", r.PickInt([]int{1, 2, 4, 16}))
+	if c.Get("jit") != "" {
+		c.SetInt("threads", r.PickInt([]int{4, 8, 16}))
+	}
 	if strings.Contains(c.Get("recs"), "I") {
 		c.Tag("insertions")
 	}
@@ -658,6 +685,13 @@ func execTopa(r *RNG, c *Case) {
 			return strings.Join(parts, sepFS), nil
 		})))
 		return
+	}
+	if idSeed(c.ID)%4 == 0 {
+		// the output directory is being re-used: every query already has a (longer) file from an earlier run
+		os.MkdirAll(dir, 0755)
+		for _, n := range blockNames(recs) {
+			os.WriteFile(filepath.Join(dir, n+".fasta"), []byte(">stale\n"+strings.Repeat("STALESTALE\n", 60)), 0644)
+		}
 	}
 	res := safeRun(30*time.Second, func() (string, error) {
 		err := sam.ToPairAlign(strings.NewReader(txt), strings.NewReader(refTxt), dir, atoi(c.Get("wrap")), atoi(c.Get("start")), atoi(c.Get("end")),
